@@ -493,3 +493,45 @@ impl HeuristicTracker {
         }
     }
 }
+
+/// Verification hooks: expose the private reward arithmetic of the dynamic selective heuristic.
+#[cfg(reinterpretcat_vrp_verif)]
+pub mod verif {
+    use super::*;
+
+    /// See `get_relative_distance`.
+    pub fn relative_distance<O, S>(objective: &O, a: &S, b: &S) -> Float
+    where
+        O: HeuristicObjective<Solution = S>,
+        S: HeuristicSolution,
+    {
+        get_relative_distance(objective, a, b)
+    }
+
+    /// See `estimate_distance_reward`.
+    pub fn distance_reward<C, O, S>(heuristic_ctx: &C, initial_solution: &S, new_solution: &S) -> Float
+    where
+        C: HeuristicContext<Objective = O, Solution = S>,
+        O: HeuristicObjective<Solution = S>,
+        S: HeuristicSolution,
+    {
+        estimate_distance_reward(heuristic_ctx, initial_solution, new_solution)
+    }
+
+    /// See `estimate_reward_perf_multiplier` (its two inputs made explicit).
+    pub fn perf_multiplier<C, O, S>(
+        heuristic_ctx: &C,
+        solution: &S,
+        approx_median: Option<usize>,
+        duration: usize,
+        has_improvement: bool,
+    ) -> Float
+    where
+        C: HeuristicContext<Objective = O, Solution = S>,
+        O: HeuristicObjective<Solution = S>,
+        S: HeuristicSolution,
+    {
+        let search_ctx = SearchContext { heuristic_ctx, slot_idx: 0, from: SearchState::Diverse, solution, approx_median };
+        estimate_reward_perf_multiplier(&search_ctx, duration, has_improvement)
+    }
+}
